@@ -202,6 +202,8 @@ impl<'v> SetLike<'v> for RefCell<SetData<'v>> {
     #[inline]
     unsafe fn iter_start(&self) {
         mem::forget(self.borrow());
+        #[cfg(starlark_verif)]
+        crate::verif::emit("iter_start", 2, self as *const Self as usize as i64, 0);
     }
 
     #[inline]
@@ -209,6 +211,8 @@ impl<'v> SetLike<'v> for RefCell<SetData<'v>> {
         unsafe {
             unleak_borrow(self);
         }
+        #[cfg(starlark_verif)]
+        crate::verif::emit("iter_stop", 2, self as *const Self as usize as i64, 0);
     }
 
     #[inline]
